@@ -230,6 +230,8 @@ def copy_oracle(w: mut.World, step, s0: Snap, s1: Snap):
                 return "copy: before=True/0 must prepend", info
     pairs = []
     errs = []
+    d47 = []
+    explicit_kind = op[0] == "addnode" and op[6] is not None
 
     def pair(S, N, top, topkind, deep, par):
         r = s0.get(S)
@@ -250,6 +252,10 @@ def copy_oracle(w: mut.World, step, s0: Snap, s1: Snap):
             want = topkind[1] if (top and topkind[0] == "fixed") else r.kind
             if kind_of(N) != want:
                 errs.append(f"{where}: kind {kind_of(N)!r}, expected {want!r}")
+            elif top and topkind[0] == "fixed" and want != r.kind and not explicit_kind:
+                # known finding D47 (pinned by the suite): without kind= the top node of a typed copy gets the
+                # default kind, not the source's.  Exactly this deviation is expected here, nothing else.
+                d47.append(f"{where}: kind {kind_of(N)!r}, the source has {r.kind!r}")
         if N._tree is not tree:
             errs.append(f"{where}: belongs to another tree")
         if N._parent is not par:
@@ -285,6 +291,7 @@ def copy_oracle(w: mut.World, step, s0: Snap, s1: Snap):
         if d:
             return f"copy: source side changed by the copy: {name_of(w, r0.node)} {d[0]}", info
     info["pairs"] = pairs
+    info["d47"] = d47
     info["tree"] = ti
     info["same_tree"] = op[0] in ("addnode", "addtree", "copyto") and (op[3] if op[0] != "copyto" else op[1]) == ti
     info["tops"] = [(S, N) for (S, _, _), N in zip(sources, tops)]
@@ -407,6 +414,8 @@ def replay7(hist, *, check_from=0) -> mut.Run:
             if msg:
                 run.fails.append((si, "copy", msg))
             elif info:
+                if info.get("d47"):
+                    run.fails.append((si, "D47", info["d47"][0]))
                 ncopies += 1
                 npairs += len(info["pairs"])
                 if info["same_tree"]:
